@@ -574,11 +574,8 @@ impl<E: Effect, R: CommandReceiver<E>, S: EventSender<E>> Worker<E, R, S> {
                     .map_err(|e| EnvironmentError::HeapData(format!("{:?}", e)))?;
             }
             Err(error) => {
-                // Set the process result to the error and clear frames to complete it
-                if let Some(process) = self.executor.get_process_mut(awaiter) {
-                    process.result = Some(Err(error));
-                    process.frames.clear(); // Complete the process
-                }
+                // The awaiter's select propagates the failure when it reaches this source
+                self.executor.notify_failure(awaiter, awaited, error);
             }
         }
         Ok(())
